@@ -159,7 +159,7 @@ impl Ty {
     fn sfx(self) -> &'static str { match self { Ty::F => "f", Ty::O | Ty::OI => "o", Ty::I => "n" } }
 }
 impl Be {
-    fn name(self) -> &'static str { match self { Be::Vec => "vec", Be::Deque => "deque", Be::Nd => "nd", Be::NdStep => "nd_step2" } }
+    fn name(self) -> &'static str { match self { Be::Vec => "vec", Be::Deque => "deque", Be::Nd => "nd_rev", Be::NdStep => "nd_step2" } }
 }
 
 /// run `$body` with `$v` bound to a view of the series in element type `$ty` on backend `$be`, and
@@ -169,7 +169,13 @@ macro_rules! on_view {
         match ($ty, $be) {
             (Ty::F, Be::Vec) => { let $raw = $s.f(); let $v = $raw.clone(); $body }
             (Ty::F, Be::Deque) => { let $raw = $s.f(); let $v = rot_deque(&$raw, 2); $body }
-            (Ty::F, Be::Nd) => { let $raw = $s.f(); let $v = Array1::from_vec($raw.clone()); $body }
+            (Ty::F, Be::Nd) => {
+                // a REVERSED contiguous ndarray view (stride -1): contiguous in memory, but in the opposite order
+                let $raw = $s.f();
+                let rev = Array1::from_vec($raw.iter().rev().cloned().collect::<Vec<f64>>());
+                let $v: ArrayView1<f64> = rev.slice(s![..;-1]);
+                $body
+            }
             (Ty::F, Be::NdStep) => {
                 let $raw = $s.f();
                 let mut big = vec![-7.0; 2 * $raw.len()];
